@@ -3,10 +3,8 @@
 #ifndef GHOST_C07_H
 #define GHOST_C07_H
 #define GHOSTS_C07(X) \
-    /* log stub */ \
-    X(int, g_c07_log) X(int, g_c07_log_level) \
     /* sink stub (drec->super.callback / next layer): sticky "has been called", sticky "has failed", last result */ \
-    X(int, g_c07_cb) X(int, g_c07_cb_failed) X(int, g_c07_cb_rc) \
+    X(int, g_c07_cb) X(int, g_c07_cb_failed) X(int, g_c07_cb_rc) X(const unsigned char *, g_c07_cb_ptr) X(size_t, g_c07_cb_len) X(int, g_c07_last) X(int, g_c07_eos) \
     /* the three legal (ptr,len) shapes of one delivery, fixed at entry of decompress (compared, never dereferenced) */ \
     X(const unsigned char *, g_c07_buf) X(const unsigned char *, g_c07_in) X(size_t, g_c07_inlen) X(const void *, g_c07_tx) \
     /* entry state: the stream is dead (ended after an error and not in passthrough mode) */ \
@@ -19,7 +17,18 @@
 #define C07_BUF 8192
 /* z_stream cursor of a decompressor: output window inside the 8 KiB buffer, input window inside the caller's chunk.
  * Usable in loop invariants (locals drec, d of htp_gzip_decompressor_decompress). */
+/* the cursors are havocked by the loop contract and then only ASSUMED to be inside their windows: pointer_equals (which assigns in
+ * assume context) keeps their points-to sets exact; a plain == leaves them pointing anywhere and the LZMA header memcpy from next_in
+ * then ranges over every object of the program (12 M variables) */
 #define C07_OUT_OK(z) ((z)->stream.avail_out <= C07_BUF && (z)->stream.next_out == (z)->buffer + (C07_BUF - (z)->stream.avail_out))
 #define C07_IN_OK(z, dd) ((z)->stream.avail_in <= (dd)->len && (z)->stream.next_in == (unsigned char *) (dd)->data + ((dd)->len - (z)->stream.avail_in))
 #define C07_ZI_OK(z) ((z)->zlib_initialized >= 0 && (z)->zlib_initialized <= 4)
+/* loop invariant of the inflate loop about a stream that was dead on entry: with the known finding carved out the output window is
+ * not full (so the stale-buffer delivery at the loop top is unreachable); without the carve-out nothing is assumed and obligation
+ * S4 of the sink fails at that call site */
+#ifdef KNOWN_F_C07_STALE_REDELIVERY
+#define C07_INV_DEAD(z) (g_c07_dead ==> (z)->stream.avail_out != 0)
+#else
+#define C07_INV_DEAD(z) 1
+#endif
 #endif
